@@ -113,3 +113,12 @@ LIB = [
 for _c in LIB:
     if _c.script_name == 'mathRound':
         _c.fact_instances = pow10_instances
+
+
+# fixed native witness for the number parsers (used when a failed obligation has no replayable counter-model: the parse
+# functions are uninterpreted in the logic, so the ground replay cannot evaluate their clauses)
+from .value_c import NUMBER_TEXT_WITNESS        # noqa: E402
+for _c in LIB:
+    if _c.script_name in ('numberParseFloat', 'numberParseInt'):
+        _c.native_witness = {'fails-only-when-invalid': NUMBER_TEXT_WITNESS, 'returns-only-when-valid': NUMBER_TEXT_WITNESS,
+                             'result': NUMBER_TEXT_WITNESS}
